@@ -594,15 +594,15 @@ fn check_cmd(a: &[String]) -> i32 {
         }
         return 2;
     }
+    if reported > 0 {
+        // (a parser that kills every worker at once leaves no completed runs: still a violation)
+        return 1;
+    }
     if runs == 0 {
         eprintln!("HARNESS-ERROR no runs executed");
         return 2;
     }
-    if reported > 0 {
-        1
-    } else {
-        0
-    }
+    0
 }
 
 pub struct Known {
